@@ -57,8 +57,8 @@ PLAN = {
         "prop": ["PassImplementsRel"],
         "mc_quick": ["CfgsQ1", "CfgsQ2"],
         "vacuity": [("DevLimit", "CfgsQ1", "ConnLimit")],
-        "scen_quick": ["h1-max1-AAB", "h1-max2-AAAA", "h1-max1-close", "h1-guess-max1", "h1-retries-max1-AA"],
-        "scen_thorough": ["h1-max1-AAB", "h1-max2-AAAA", "h1-max1-close", "h1-guess-max1", "h1-guess-max2", "h1-max3-ABCAB", "h1-max2-ABC-keep0", "h1-max2-ABA-keep1", "h1-tls-max1-AAB", "h1-max1-abandon", "h1-retries-max1-AA", "h1-retries-max2-AB"],
+        "scen_quick": ["h1-max1-AAB", "h1-max2-AAAA", "h1-max1-close", "h1-guess-max1", "h1-retries-max1-AA", "h2-max1-AAB"],
+        "scen_thorough": ["h1-max1-AAB", "h1-max2-AAAA", "h1-max1-close", "h1-guess-max1", "h1-guess-max2", "h1-max3-ABCAB", "h1-max2-ABC-keep0", "h1-max2-ABA-keep1", "h1-tls-max1-AAB", "h1-max1-abandon", "h1-retries-max1-AA", "h1-retries-max2-AB", "h2-max1-AAB", "h2-max1-BAB"],
         "strategies": ["base", "dfs", "fault", "cancel-scope", "late", "late+fault"],
     },
     "C05": {
@@ -66,8 +66,8 @@ PLAN = {
         "prop": [],
         "mc_quick": ["CfgsQ1"],
         "vacuity": [("DevFresh", "CfgsQ1", "NoZombie"), ("DevGate", "CfgsQ1", "NoZombie"), ("DevNoRemove", "CfgsQ1", "Forgotten")],
-        "scen_quick": ["h1-max1-A", "h1-max1-AA", "h1-tls-max1-AAB"],
-        "scen_thorough": ["h1-max1-A", "h1-max1-AA", "h1-max1-AAB", "h1-tls-max1-AAB", "h1-max1-close", "h1-max1-abandon", "h1-guess-max1", "h1-max2-ABA-keep1"],
+        "scen_quick": ["h1-max1-A", "h1-max1-AA", "h1-tls-max1-AAB", "h2-max1-AA"],
+        "scen_thorough": ["h1-max1-A", "h1-max1-AA", "h1-max1-AAB", "h1-tls-max1-AAB", "h1-max1-close", "h1-max1-abandon", "h1-guess-max1", "h1-max2-ABA-keep1", "h2-max1-AA", "h2-max1-AAB"],
         "strategies": ["base", "fault", "cancel-scope", "cancel-native"],
     },
     "C06": {
@@ -75,8 +75,8 @@ PLAN = {
         "prop": [],
         "mc_quick": ["CfgsQ1"],
         "vacuity": [("DevEstab", "CfgsQ1", "StreamOwned")],
-        "scen_quick": ["h1-max1-AA", "h1-tls-max1-AAB"],
-        "scen_thorough": ["h1-max1-A", "h1-max1-AA", "h1-max1-AAB", "h1-tls-max1-AAB", "h1-max1-close", "h1-max1-abandon", "h1-max2-ABC-keep0"],
+        "scen_quick": ["h1-max1-AA", "h1-tls-max1-AAB", "h2-max1-AAB"],
+        "scen_thorough": ["h1-max1-A", "h1-max1-AA", "h1-max1-AAB", "h1-tls-max1-AAB", "h1-max1-close", "h1-max1-abandon", "h1-max2-ABC-keep0", "h2-max1-AAB", "h2-max1-AA"],
         "strategies": ["base", "fault", "cancel-scope", "cancel-native", "poolclose"],
     },
     "C07": {
@@ -85,8 +85,8 @@ PLAN = {
         "mc_quick": [("CfgsQ1a", {"maxclock": 1}), ("CfgsQ3a", {"faults": 0})],
         "live": "CfgsL1",
         "vacuity": [("DevNoPass", "CfgsQ1", "NoServiceableWaiter")],
-        "scen_quick": ["h1-max1-AAB", "h1-max1-pto", "h1-guess-max1"],
-        "scen_thorough": ["h1-max1-AAB", "h1-max1-pto", "h1-max1-pto-AB", "h1-guess-max1", "h1-guess-max2", "h1-max2-AAAA", "h1-max1-close", "h1-max1-abandon", "h1-max3-ABCAB"],
+        "scen_quick": ["h1-max1-AAB", "h1-max1-pto", "h1-guess-max1", "h2-max1-BAB"],
+        "scen_thorough": ["h1-max1-AAB", "h1-max1-pto", "h1-max1-pto-AB", "h1-guess-max1", "h1-guess-max2", "h1-max2-AAAA", "h1-max1-close", "h1-max1-abandon", "h1-max3-ABCAB", "h2-max1-BAB", "h2-max1-AAB"],
         "strategies": ["base", "dfs", "fault", "cancel-scope"],
     },
     "C01": {
@@ -103,8 +103,8 @@ PLAN = {
         "prop": ["RetryOnlyUnsent"],
         "mc_quick": [("CfgsQ1", {"maxclock": 1}), ("CfgsQ3a", {})],
         "vacuity": [],
-        "scen_quick": ["h1-max1-AAB", "h1-guess-max1", "h1-retries-max1-AA", "h1-max1-early"],
-        "scen_thorough": ["h1-max1-AAB", "h1-guess-max1", "h1-guess-max2", "h1-retries-max1-AA", "h1-retries-max2-AB", "h1-max1-early", "h1-max1-close", "h1-max2-AAAA"],
+        "scen_quick": ["h1-max1-AAB", "h1-guess-max1", "h1-retries-max1-AA", "h1-max1-early", "h2-max1-AA"],
+        "scen_thorough": ["h1-max1-AAB", "h1-guess-max1", "h1-guess-max2", "h1-retries-max1-AA", "h1-retries-max2-AB", "h1-max1-early", "h1-max1-close", "h1-max2-AAAA", "h2-max1-AA", "h2-max1-AAB"],
         "strategies": ["base", "dfs", "fault"],
     },
     "C10": {
@@ -124,6 +124,17 @@ PLAN = {
         "scen_quick": ["h1-max1-pto", "h1-max1-pto-AB"],
         "scen_thorough": ["h1-max1-pto", "h1-max1-pto-AB", "h1-max1-pto-zero"],
         "strategies": ["base", "dfs", "late", "time"],
+    },
+    "C03": {
+        # on a shared HTTP/2 connection the requests of the OTHER callers still reach the server
+        # decodable when a caller fails or is cancelled at any point (HPACK state, frame order)
+        "inv": ["TypeOK", "AtMostOnce"],
+        "prop": [],
+        "mc_quick": [("CfgsQ3", {"faults": 1, "maxclock": 0})],
+        "vacuity": [],
+        "scen_quick": ["h2-max1-AA"],
+        "scen_thorough": ["h2-max1-AA", "h2-max1-AAB"],
+        "strategies": ["base", "dfs", "fault", "cancel-scope"],
     },
     "C09": {
         "inv": ["TypeOK"],
@@ -239,6 +250,7 @@ class PoolRunner:
         quick = self.tier == "quick"
         for name in names:
             scen = SCENARIOS[name]
+            strategies = [x for x in self.plan["strategies"] if x not in scen.skip]
             if "base" in strategies:
                 run = scen.make()
                 run.run()
@@ -275,7 +287,7 @@ class PoolRunner:
             if "late" in strategies:
                 for label, run in explore.arrival_variants(scen.make, with_faults=("late+fault" in strategies), stride=1):
                     self.add(scen, label, run)
-            if "random" in strategies or not quick:
+            if ("random" in strategies or not quick) and "random" not in scen.skip:
                 for i in range(25 if quick else 150):
                     s = self.rng.randrange(1 << 30)
                     run = explore.random_walk(scen.make, s, p_fault=0.08, p_cancel=0.03 if styles else 0.0)
